@@ -20,6 +20,11 @@ CLAIMED = {
                 "emitted IF / LOOP-EXITIF forms for every valuation of the conditions (0..3 ELSE IF arms), line and statement sequencing through convert() on "
                 "injected ASTs with opaque statements, for all option combinations.",
                 level_note=_TX_NOTE, technique="contract-based verification: class and pass contracts checked by executing the real code on opaque parts; structured-semantics evaluation of emitted templates"),
+    "C04": dict(level_text="For every device statement form and every presence pattern of its optional operands (85 rows written from the Color BASIC syntax and "
+                "the library's parameter names): the real grammar rule parses the form, the real visitor is run with opaque operands, and the emitted call "
+                "puts each operand in the position the real ecb.b09 PARAM lines give to the parameter of that name, defaults elsewhere; packed and "
+                "blank-separated spellings agree; HBUFF prologue iff HBUFF at any depth.",
+                level_note=_TX_NOTE, technique="contract-based verification: per-rule operand-map obligations (real grammar + real visitor on opaque operands) against the library's declared interface"),
     "C05": dict(level_text="Visit contracts (own hook, then every part, in source order) and emission contracts (hoisted calls printed first) for every class of "
                 "elements.py, step contracts of the hoisting pass (owner = latest statement, fresh temporaries, order, frame), the statement-replacement protocol; "
                 "composed by structural induction to all nestings.",
@@ -28,6 +33,27 @@ CLAIMED = {
                 "combinations (line 0 included), visit contracts of all jump-carrying classes, and the wiring of convert() (labels, refusals, dispatcher) on injected "
                 "ASTs with opaque statements and boundary line numbers.",
                 level_note=_TX_NOTE, technique="contract-based verification: pass step contracts and frames checked by executing the real code on opaque parts"),
+    "C07": dict(level_text="Every class's emitted text on opaque, non-empty operands is recognised by a BASIC09 statement-structure grammar with typed holes "
+                "(statements, block openers/closers, complete argument lists, closed literals); plus the bundled examples as a labelled bounded stand-in.",
+                level_note=_TX_NOTE + " The sidecar's BASIC09 statement grammar is the trusted stand-in for the BASIC09 loader.",
+                technique="contract-based verification: emission templates of the real classes checked for membership in a BASIC09 statement grammar"),
+    "C08": dict(level_text="Static obligation over the real PEG grammar (every adjacent token pair of every Sequence admits blanks), and for ~130 statement forms "
+                "the packed / one-blank / two-blank spellings are all refused or byte-identical through the real convert(); LF/CR/CRLF, blank lines, NUL, `?`; content preserved.",
+                level_note=_TX_NOTE + " Layout lemma (paper): boundary obligations compose to all layouts.",
+                technique="contract-based verification: grammar boundary obligations + finite case analysis over statement forms through the real parser"),
+    "C09": dict(level_text="Truncation rule on every accepted name (all 1-2 character names, representative longer ones), arr_ prefix for arrays in every "
+                "position incl. implicit and source DIMs, generated identifiers disjoint from user identifiers (scan of every BasicVar(<constant>) site), "
+                "identifier-capable terminals of the grammar are exactly var/str_var plus content terminals.",
+                level_note=_TX_NOTE, technique="contract-based verification: naming contracts on the real visitors and classes; finite enumeration of the name space (bounded part labelled)"),
+    "C14": dict(level_text="Every RUN site: names found mechanically in coco/b09/*.py exist in ecb.b09 (or are OS-9 modules); for every statement/function form "
+                "the arguments the real code builds match arity and string/numeric/record kind of the PARAM lines; every RUN inside the library against its "
+                "callee; display_t/play_t of the prologue field-for-field against all library procedures; rule kinds (string rules build string-kinded constructs).",
+                level_note=_TX_NOTE, technique="contract-based verification: interface obligations between emitters and the library's declared signatures"),
+    "C15": dict(level_text="F2 obligations on the real grammar/visitor: arity of every tuple unpacking vs its Sequence, table keys vs rule literals, all operator "
+                "spellings, literal terminals vs conversions (bounded enumeration), procedure names, DATA variants, and all single-token mutations of ~130 "
+                "statement forms: only documented refusals. Exceptions outside the documented set are violations unless in a recorded input class.",
+                level_note=_TX_NOTE + " parsimonious' matcher is trusted to terminate and to raise only ParseError.",
+                technique="contract-based verification: arity/key/conversion obligations over the real grammar and visitor; bounded mutation stand-in labelled"),
     "C16": dict(level_text="Deductive proof, for all inputs and all loop iterations, that the real decoder functions (read from /repo on every run) "
                 "write exactly header + every pixel of a well-formed uncompressed file: per-function contracts, loop invariants over the "
                 "output array, callee contracts for getbit/pack/iotostr/strtoio/dump; obligations discharged by z3 (goal-directed instantiation, "
